@@ -31,7 +31,9 @@ class PendingExpander(Pending):
         self.validator = validator
 
     def validate(self, tokens, wanted_key):
-        for key, value in self.validator(tokens):
+        # Expand the whole shorthand first: when one longhand is invalid, the
+        # whole declaration is invalid at computed-value time.
+        for key, value in tuple(self.validator(tokens)):
             if key.startswith('-'):
                 key = f'{self.validator.keywords["name"]}{key}'
             if key == wanted_key:
